@@ -9,7 +9,8 @@
    is recorded as known finding (known_findings.txt); the check replays it on the implementation.
    The whole-scenario ledger (every object destroyed => every descriptor closed exactly once) is checked on the traces
    of the fault-enumeration harness, which the model must reproduce entry by entry (gen/c14.py). *)
-From SP Require Import Base ListAux Os OsLemmas WaitLemmas SocketModel FdLemmas Objects DriverModel Sim.
+From SP Require Import Base ListAux Os OsLemmas WaitLemmas SocketModel FdLemmas FdProgram Objects DriverModel Sim.
+From Coq Require Import Permutation.
 Local Open Scope Z_scope.
 
 Theorem tcp_constructor_ledger : forall (s : os ext) r s',
@@ -32,6 +33,26 @@ Proof. exact accept_now_ledger. Qed.
 Theorem first_failure_is_thrown : forall ws fd, Forall plain ws -> forall (s : os ext) r s',
   setup_seq ws fd s = (r, s') -> exists new, seq_spec s s' r new.
 Proof. exact setup_seq_spec. Qed.
+
+(* EVERY program over the synchronous constructors, accept and destruction (the program catches whatever is thrown and goes
+   on), every fault overlay, every script: what the library opened and did not hand to the program has been closed exactly
+   once; what the program holds is open, distinct, and nobody else closed it (Permutation = equality as multisets) *)
+Theorem ledger_balanced_all_programs : forall ops (live : list Z) (s : os ext) live' s',
+  0 <= o_nextfd s -> NoDup live -> (forall fd, In fd live -> fd < o_nextfd s) ->
+  run_fops ops live s = (Ok live', s') ->
+  exists new, ledger s s' live live' new.
+Proof. exact FdProgram.ledger_balanced_all_programs. Qed.
+
+Theorem everything_destroyed_nothing_leaked : forall ops (s : os ext) s',
+  0 <= o_nextfd s -> run_fops ops [] s = (Ok [], s') ->
+  exists new, extends s s' new /\ Permutation (opened new) (closed new).
+Proof. exact FdProgram.everything_destroyed_nothing_leaked. Qed.
+
+(* non-vacuity: a program whose second constructor fails at bind() and which then destroys what it has *)
+Example program_with_fault :
+  let '(r, s) := run_fops [FNewTcp; FNewUdp; FClose 1000] [] (os_init ext_init [] [(5, 98)]) in
+  r = Ok [] /\ opened (o_trace s) = [1000; 1001] /\ closed (o_trace s) = [1001; 1000].
+Proof. vm_compute. repeat split. Qed.
 
 (* non-vacuity: the initial state of every case satisfies the hypothesis, and both outcomes occur *)
 Example ctor_hypothesis_holds : 0 <= o_nextfd (os_init ext_init [] []).
@@ -77,3 +98,5 @@ Print Assumptions acceptor_constructor_ledger.
 Print Assumptions accept_ledger.
 Print Assumptions first_failure_is_thrown.
 Print Assumptions silent_drop_refuted.
+Print Assumptions ledger_balanced_all_programs.
+Print Assumptions everything_destroyed_nothing_leaked.
